@@ -24,7 +24,8 @@ SL(x) == StrL(StrCps(x))
 
 \* dj-related: the base is a related manager (the posts of author 1), not the model's default manager
 \* sa-*-cols: the base selects a column subset (the title) that does not identify the row
-Styles == {"sa-select", "sa-legacy", "dj-queryset", "dj-manager", "dj-related", "sa-select-cols", "sa-legacy-cols"}
+\* (the Deep machine keeps to the entity styles and the OData filters: its space is the orders of two conditions and two pre-joins)
+Styles == {"sa-select", "sa-legacy", "dj-queryset", "dj-manager", "dj-related"} \cup (IF Deep THEN {} ELSE {"sa-select-cols", "sa-legacy-cols"})
 \* native base conditions the harness knows how to build without the library, with their meaning
 BaseConds == [ npos |-> Cmp("gt", Id0("n"), IntL(0)), ta |-> Cmp("eq", Id0("title"), SL("a")),
                hasauthor |-> Cmp("ne", P("author", <<"name">>), NullL) ]
@@ -76,7 +77,7 @@ BaseOrder == /\ Buildable /\ q.order = "none"
 BaseAnnotate == /\ Buildable /\ ~q.annot
                 /\ q' = [q EXCEPT !.annot = TRUE] /\ steps' = Append(steps, <<"annotate", "extra">>)
 Apply == /\ q.style # "none" /\ q.applied = 0
-         /\ \E f \in 1..(NF + Len(ManyFilters)) : q' = [q EXCEPT !.applied = f] /\ steps' = Append(steps, <<"apply", f>>)
+         /\ \E f \in 1..(IF Deep THEN NF ELSE NF + Len(ManyFilters)) : q' = [q EXCEPT !.applied = f] /\ steps' = Append(steps, <<"apply", f>>)
 Next == PickStyle \/ BaseWhere \/ BaseJoin \/ BaseOrder \/ BaseAnnotate \/ Apply
 IsCase == q.applied # 0
 
